@@ -40,7 +40,7 @@ func vRefGlob(pattern, s string) (matched, bad bool) {
 func verifC12_grammar() {
 	// (the request Host is compared literally: glob metacharacters in it mean nothing, and an IPv6 literal is just a host)
 	reqHosts := []string{"example.com", "Example.COM", "example.com:8080", "*", "[::1]:8080", "app.example.com", "example.com:*", "e?il.com"}
-	schemes := []string{"https://", "http://", "HTTPS://"}
+	schemes := []string{"https://", "capacitor://", "http://", "HTTPS://", "wss://", "chrome-extension://"} // (any scheme: the comparison is about the host)
 	userinfos := []string{"", "user@", "example.com@", "example.com:pw@"}
 	ohosts := []string{"example.com", "EXAMPLE.com", "evil.com", "example.com.evil.com", "evilexample.com", "app.example.com", "[::1]"}
 	ports := []string{"", ":8080", ":443"}
@@ -50,14 +50,14 @@ func verifC12_grammar() {
 	if vParam("small", 0) == 1 {
 		// quick tier: a sub-grammar that still contains every trick once
 		reqHosts = reqHosts[:5]
-		schemes = schemes[:1]
+		schemes = schemes[:2]
 		userinfos = []string{"", "example.com@"}
 		ohosts = []string{"example.com", "evil.com", "example.com.evil.com", "app.example.com", "[::1]"}
 		ports = ports[:2]
 		tails = []string{"", "?.example.com", "/example.com"}
 	}
 	reqHost := reqHosts[vChoose("reqHost", len(reqHosts))]
-	kind := vChoose("originKind", 3) // 0 built from the grammar, 1 absent, 2 "null"
+	kind := vChoose("originKind", 4) // 0 built from the grammar, 1 absent, 2 "null", 3 a scheme without an authority
 	origin, trueHost := "", ""
 	switch kind {
 	case 0:
@@ -67,6 +67,9 @@ func verifC12_grammar() {
 		trueHost = oh + port
 	case 2:
 		origin = "null"
+	case 3:
+		// present, with a scheme, naming no host at all: not "no Origin header"
+		origin = []string{"file://", "https:evil.com", "https:/evil.com", "about:blank", "evil.com:8080"}[vChoose("hostless", 5)]
 	}
 	patterns := patternSets[vChoose("patterns", len(patternSets))]
 	skip := vChoose("skipVerify", 2) == 1
